@@ -123,14 +123,15 @@ def d5_empty_best(chk, F):
             tests.append((b, t))
     chk.floor("C16.D5-empty-best", "is_empty tests on best lists", len(tests), 3, f"{f.file}:{f.line}")
     for b, t in tests:
-        sws = [(sb, st) for sb, st in f.iter_terms("switch") if operand_local(st["discr"]) == t["dest"]["l"]]
-        if not sws:
+        from cfgq import call_result_edges
+        te, _fe = call_result_edges(f, b)        # follows copies and `!` of the result (e.g. a named local `has_empty_list`)
+        if not te:
             chk.fail("C16.D5-empty-best", f"add_units_file|is_empty@{len(tests)}", f.where(b), "result of the is_empty test on a best list does not control a branch")
             continue
-        sb, st = sws[0]
-        empty_target = st["otherwise"]
-        reach = f.reach_path_sensitive(empty_target)
-        bad = [x for x in stores if x in reach]
+        bad = []
+        for (_u, empty_target) in te:
+            reach = f.reach_path_sensitive(empty_target)
+            bad += [x for x in stores if x in reach]
         chk.expect(not bad, "C16.D5-empty-best", f"add_units_file|is_empty#{tests.index((b, t))}", f.where(b),
                    "an empty best-units list can reach the store into self.best_units: BestConversions::new then unwraps the first element of an empty list",
                    sample=f"{f.where(b)}: the is-empty outcome cannot reach the store (returns EmptyBest)")
